@@ -252,6 +252,46 @@ pub fn gen_history(rng: &mut Rng, justified: bool) -> (Vec<Sx>, Vec<Sx>, String)
             add(rt(7, vec![null_app(), null_app()], vec![ua.clone(), a.clone()]), &mut terms, &mut ops, &mut nadd);
             "self-reference"
         }
+        3 => { // absorbed symmetry: a class with parents absorbs a smaller class that carries a symmetry
+            let (big_v, ar) = *rng.pick(&[(1u64, 3usize), (0, 2), (2, 4)]);
+            let base: Vec<u64> = (1..=ar as u64).collect();
+            let leaf = |v: u64, p: &Vec<u64>| rt(v, p.iter().map(|s| slot_arg(*s)).collect(), vec![]);
+            let mut sw = base.clone(); sw.swap(0, 1);
+            let q = leaf(big_v, &base); let qs = leaf(big_v, &sw);
+            // parents (and probes for the consequence one or two levels up)
+            add(rt(6, vec![null_app()], vec![q.clone()]), &mut terms, &mut ops, &mut nadd);
+            add(rt(6, vec![null_app()], vec![qs.clone()]), &mut terms, &mut ops, &mut nadd);
+            if rng.chance(1, 2) {
+                add(rt(7, vec![null_app(), null_app()], vec![q.clone(), q.clone()]), &mut terms, &mut ops, &mut nadd);
+                add(rt(7, vec![null_app(), null_app()], vec![qs.clone(), qs.clone()]), &mut terms, &mut ops, &mut nadd);
+            }
+            if rng.chance(1, 2) {
+                add(rt(6, vec![null_app()], vec![rt(6, vec![null_app()], vec![q.clone()])]), &mut terms, &mut ops, &mut nadd);
+                add(rt(6, vec![null_app()], vec![rt(6, vec![null_app()], vec![qs.clone()])]), &mut terms, &mut ops, &mut nadd);
+            }
+            // the small symmetric class: another leaf variant over the same slots (a slot repeated if it has more positions)
+            let small_v = *rng.pick(&[0u64, 1, 2].iter().filter(|v| **v != big_v).cloned().collect::<Vec<u64>>());
+            let sar = [2usize, 3, 4][small_v as usize];
+            let fill = |p: &Vec<u64>| -> Vec<u64> { (0..sar).map(|i| if i < p.len() { p[i] } else { p[p.len() - 1] }).collect() };
+            if sar >= ar {
+                let (p1, p2) = (leaf(small_v, &fill(&base)), leaf(small_v, &fill(&sw)));
+                let h1 = add(p1, &mut terms, &mut ops, &mut nadd);
+                let h2 = add(p2, &mut terms, &mut ops, &mut nadd);
+                union(h1, h2, &mut ops, &mut jn);
+                let hq = add(q.clone(), &mut terms, &mut ops, &mut nadd);
+                if rng.chance(1, 2) { union(h1, hq, &mut ops, &mut jn); } else { union(hq, h1, &mut ops, &mut jn); }
+            } else {
+                // the small leaf has fewer positions: wrap the big one's slots into a binder-free pair of leaves
+                let (p1, p2) = (rt(7, vec![null_app(), null_app()], vec![leaf(small_v, &base[..sar].to_vec()), q.clone()]),
+                                rt(7, vec![null_app(), null_app()], vec![leaf(small_v, &sw[..sar].to_vec()), qs.clone()]));
+                let h1 = add(p1, &mut terms, &mut ops, &mut nadd);
+                let h2 = add(p2, &mut terms, &mut ops, &mut nadd);
+                union(h1, h2, &mut ops, &mut jn);
+                let hq = add(q.clone(), &mut terms, &mut ops, &mut nadd);
+                union(hq, h1, &mut ops, &mut jn);
+            }
+            "symmetry"
+        }
         _ => "random",
     };
     // random part: some terms with their subterms, some unions
